@@ -1383,6 +1383,49 @@ def gen_lexmath(lines):
 GENERATORS.append(("LexMath", gen_lexmath))
 
 
+# ------------------------------------------------------------------ private tokens (C01/C02/C04 under arbitrary_precision)
+def gen_token(lines):
+    """number.rs / raw.rs `TOKEN`, and the places of value/de.rs, number.rs, de.rs that give the Number token its reading:
+    `KeyClassifier::visit_str`, `ValueVisitor::visit_map`, `NumberFromString`, `end_map`"""
+    def token(fname, key):
+        m = re.search(r'const TOKEN: &str = "((?:[^"\\]|\\.)*)";', src(fname))
+        if not m: miss("de.token." + key, "const TOKEN not found in " + fname); return b""
+        return rust_str_bytes(m.group(1))
+    lines.append("/-- `number::TOKEN` -/")
+    lines.append("def numberToken : List UInt8 := %s" % lean_bytes(token("number.rs", "number")))
+    lines.append("/-- `raw::TOKEN` -/")
+    lines.append("def rawToken : List UInt8 := %s" % lean_bytes(token("raw.rs", "raw")))
+    vd = src("value/de.rs")
+    # KeyClassifier: the key is compared after unescaping (visit_str / visit_string on the decoded text), by string equality
+    body = fn_body(vd, r"impl<'de> Visitor<'de> for KeyClassifier \{")
+    arms = re.findall(r"crate::number::TOKEN\s*=>\s*Ok\(KeyClass::Number\)", body or "")
+    if len(arms) != 2 or not re.search(r"fn visit_str<E>\(self, s: &str\)", body or "") or not re.search(r"deserializer\.deserialize_str\(self\)", vd):
+        miss("de.token.keyclassifier", "KeyClassifier no longer classifies the decoded key by equality with number::TOKEN")
+    # visit_map: first key only; Number arm = one next_value::<NumberFromString>(), nothing else is read
+    vm = fn_body(vd, r"fn visit_map<V>\(self, mut visitor: V\) -> Result<Value, V::Error>")
+    norm = re.sub(r"\s+", " ", vm or "")
+    arm = re.search(r"match tri!\(visitor\.next_key_seed\(KeyClassifier\)\) \{ #\[cfg\(feature = \"arbitrary_precision\"\)\] Some\(KeyClass::Number\) => \{ let number: NumberFromString = tri!\(visitor\.next_value\(\)\); Ok\(Value::Number\(number\.value\)\) \}", norm)
+    if not arm: miss("de.token.visit_map", "ValueVisitor::visit_map: the KeyClass::Number arm differs from the transcribed one")
+    lines.append("/-- `ValueVisitor::visit_map` classifies the FIRST key only and reads exactly one value for the Number token -/")
+    lines.append("def tokenArmTranscribed : Bool := %s" % ("true" if arm else "false"))
+    nb = src("number.rs")
+    m = re.search(r'impl<\'de> de::Deserialize<\'de> for NumberFromString \{.*?formatter\.write_str\("((?:[^"\\]|\\.)*)"\).*?let n = tri!\(s\.parse\(\)\.map_err\(de::Error::custom\)\);.*?deserializer\.deserialize_str\(Visitor\)', nb, re.S)
+    if not m: miss("de.token.numberfromstring", "NumberFromString: deserialize_str + s.parse().map_err(custom) not found")
+    lines.append("/-- `NumberFromString`'s `expecting` text (the tail of serde's `invalid type` message) -/")
+    lines.append("def numberFromStringExpecting : List UInt8 := %s" % lean_bytes(rust_str_bytes(m.group(1)) if m else b""))
+    de = src("de.rs")
+    em = re.sub(r"\s+", " ", fn_body(de, r"fn end_map\(&mut self\) -> Result<\(\)>") or "")
+    want = ("{ match tri!(self.parse_whitespace()) { Some(b'}') => { self.eat_char(); Ok(()) } "
+            "Some(b',') => Err(self.peek_error(ErrorCode::TrailingComma)), "
+            "Some(_) => Err(self.peek_error(ErrorCode::TrailingCharacters)), "
+            "None => Err(self.peek_error(ErrorCode::EofWhileParsingObject)), } }")
+    if em != want: miss("de.token.end_map", "end_map differs from the transcribed one: %r" % em)
+    fs = re.sub(r"\s+", " ", fn_body(de, r"impl FromStr for Number \{") or "")
+    if "Deserializer::from_str(s) .parse_any_signed_number() .map(Into::into)" not in fs:
+        miss("de.token.from_str", "Number::from_str is no longer parse_any_signed_number on the whole string")
+GENERATORS.append(("Token", gen_token))
+
+
 def main():
     os.makedirs(OUT, exist_ok=True)
     for name, fn in GENERATORS:
